@@ -30,11 +30,21 @@ type logEv struct {
 }
 
 type evLog struct {
-	mu  sync.Mutex
-	evs []logEv
+	mu   sync.Mutex
+	evs  []logEv
+	last int64 // time of the latest event (unix ns): the progress watchdog looks at it
+}
+
+func (l *evLog) idleFor() time.Duration {
+	t := atomic.LoadInt64(&l.last)
+	if t == 0 {
+		return 0
+	}
+	return time.Since(time.Unix(0, t))
 }
 
 func (l *evLog) add(e logEv) int {
+	atomic.StoreInt64(&l.last, time.Now().UnixNano())
 	l.mu.Lock()
 	e.Seq = len(l.evs)
 	l.evs = append(l.evs, e)
